@@ -44,6 +44,8 @@ use crate::c12::{
 
 pub const KEY_WRONG_NAME: &str = "accepted-certified-content-under-wrong-name";
 pub const KEY_WRONG_NAME_UNREPORTED: &str = "unreported-certified-content-under-wrong-name";
+/// completeness side of the positive control: an untampered range in which two files have the same content
+pub const KEY_HONEST_EQUAL: &str = "honest-rejected-equal-file-contents";
 
 // ---------------------------------------------------------------------------------------------------------------
 // case description
@@ -815,6 +817,19 @@ fn case10(c: &Case10) -> Report {
     let is_member = |name: &String| w.model.get(name).is_some_and(|b| certified_values.contains(&sha256_hex(b)));
     let in_range_present = w.model.keys().filter(|k| loose_number(k).is_some_and(|n| n >= rn.0 && n <= rn.1)).count();
 
+    let equal_in_range = {
+        let d: Vec<String> = w
+            .model
+            .iter()
+            .filter(|(k, _)| loose_number(k).is_some_and(|n| n >= rn.0 && n <= rn.1))
+            .map(|(_, b)| sha256_hex(b))
+            .collect();
+        d.iter().collect::<BTreeSet<_>>().len() < d.len()
+    };
+    if equal_in_range {
+        rep.label("range-holds-equal-contents");
+    }
+    let honest_key = if equal_in_range { KEY_HONEST_EQUAL } else { "honest-rejected" };
     let wrong = off.tampered.iter().chain(off.foreign.iter()).cloned().collect::<Vec<_>>();
     let permutation_type = !wrong.is_empty() && wrong.iter().all(is_member);
     if permutation_type {
@@ -830,6 +845,18 @@ fn case10(c: &Case10) -> Report {
         rep.label(if c.dir.is_empty() { "offending:none(untouched)" } else { "offending:none(tampering-out-of-range-or-no-op)" });
     }
 
+    if matches!(verdict, Verdict::Accepted) && off.is_empty() && equal_in_range {
+        // positive control for ranges in which two files have the same content (regression class of fix 8817e01d5)
+        rep.label("positive-control:range-with-equal-contents-accepted");
+        let empties = w
+            .model
+            .iter()
+            .filter(|(k, b)| b.is_empty() && loose_number(k).is_some_and(|n| n >= rn.0 && n <= rn.1))
+            .count();
+        if empties >= 2 {
+            rep.label("positive-control:range-with-several-empty-files-accepted");
+        }
+    }
     match &verdict {
         Verdict::Accepted => {
             if unparsable {
@@ -863,7 +890,7 @@ fn case10(c: &Case10) -> Report {
             let unreported: Vec<&String> = all.iter().filter(|n| !reported.contains(*n)).cloned().collect();
             if off.is_empty() && in_range_present > 0 && !unparsable {
                 rep.violation(
-                    "honest-rejected",
+                    honest_key,
                     format!(
                         "range {range:?} allow_missing={}: every file in the range is the certified one, yet rejected with missing={missing:?} tampered={tampered:?} non_verifiable={non_verifiable:?}",
                         c.allow_missing
@@ -889,12 +916,13 @@ fn case10(c: &Case10) -> Report {
         }
         Verdict::MessageMismatch => {
             if off.is_empty() && in_range_present > 0 && !unparsable {
-                rep.violation("honest-rejected", "proof returned but the recomputed message does not match the certificate".to_string());
+                rep.violation(honest_key, "proof returned but the recomputed message does not match the certificate".to_string());
             }
         }
         Verdict::OtherError(e) => {
             if off.is_empty() && in_range_present > 0 && !unparsable {
-                rep.violation("honest-rejected", format!("range {range:?}: every file in the range is the certified one, yet error {e}"));
+                let e: String = e.lines().next().unwrap_or("").to_string();
+                rep.violation(honest_key, format!("range {range:?}: every file in the range is the certified one, yet error {e}"));
             }
         }
     }
@@ -973,6 +1001,8 @@ pub fn run(args: &Args) -> i32 {
         .require_label("offending:missing")
         .require_label("offending:none(untouched)")
         .require_label("offending:none(tampering-out-of-range-or-no-op)")
+        .require_label("positive-control:range-with-equal-contents-accepted")
+        .require_label("positive-control:range-with-several-empty-files-accepted")
         .require_label("verdict:accepted")
         .require_label("verdict:rejected-with-lists");
     if let Err(e) = mmr_self_test() {
@@ -980,7 +1010,7 @@ pub fn run(args: &Args) -> i32 {
         return check.finish();
     }
     let t = check.tier;
-    check.section("tamper", case_strategy, t.pick(6000, 150_000), case10);
+    check.section("tamper", case_strategy, t.pick(4000, 100_000), case10);
     check.witness(
         KEY_WRONG_NAME,
         "verify_cardano_database accepts a directory in which the contents of 00000.chunk and 00001.chunk are exchanged",
